@@ -951,11 +951,18 @@ func (c1 ratConst) String() string {
 	return newFloatConst(0).setRat(c1.r).String()
 }
 
-func (c1 ratConst) bool() bool             { return false }
-func (c1 ratConst) string() string         { return "" }
-func (c1 ratConst) int64() int64           { return c1.r.Num().Int64() }
-func (c1 ratConst) uint64() uint64         { return c1.r.Num().Uint64() }
-func (c1 ratConst) float64() float64       { f, _ := c1.r.Float64(); return f }
+func (c1 ratConst) bool() bool     { return false }
+func (c1 ratConst) string() string { return "" }
+func (c1 ratConst) int64() int64   { return c1.r.Num().Int64() }
+func (c1 ratConst) uint64() uint64 { return c1.r.Num().Uint64() }
+func (c1 ratConst) float64() float64 {
+	f, _ := c1.r.Float64()
+	// Return 0 if it is -0.
+	if f == 0 {
+		return 0
+	}
+	return f
+}
 func (c1 ratConst) complex128() complex128 { return complex(c1.float64(), 0) }
 
 func (c1 ratConst) unaryOp(op ast.OperatorType, typ reflect.Type) (constant, error) {
